@@ -1315,14 +1315,25 @@ class SQLModel:
             db_model=self, using=set(subusing), temp_id_source=temp_id_source
         )
         # order/limit columns
-        if subsql.terms is not None:
-            subsql.terms = {
-                k: subsql.terms[k]
-                for k in select_columns_node.column_selection
-                if k in subusing
-            }
-        else:
-            subsql.terms = []
+        if subsql.terms is None:
+            # sub-step has no select list of its own to narrow (user SQL, record conversion): select from it
+            view_name = "select_columns_" + str(temp_id_source[0])
+            temp_id_source[0] = temp_id_source[0] + 1
+            return data_algebra.near_sql.NearSQLUnaryStep(
+                terms={k: None for k in subusing},
+                query_name=view_name,
+                quoted_query_name=self.quote_identifier(view_name),
+                sub_sql=subsql.to_bound_near_sql(columns=subusing),
+                annotation=str(
+                    select_columns_node.to_python_src_(print_sources=False, indent=-1)
+                ),
+                ops_key=None,
+            )
+        subsql.terms = {
+            k: subsql.terms[k]
+            for k in select_columns_node.column_selection
+            if k in subusing
+        }
         return subsql
 
     def drop_columns_to_near_sql(
@@ -1349,6 +1360,21 @@ class SQLModel:
             db_model=self, using=subusing, temp_id_source=temp_id_source
         )
         # /limit columns
+        if subsql.terms is None:
+            # sub-step has no select list of its own to narrow (user SQL, record conversion): select from it
+            kept = [k for k in using if k not in drop_columns_node.column_deletions]
+            view_name = "drop_columns_" + str(temp_id_source[0])
+            temp_id_source[0] = temp_id_source[0] + 1
+            return data_algebra.near_sql.NearSQLUnaryStep(
+                terms={k: None for k in kept},
+                query_name=view_name,
+                quoted_query_name=self.quote_identifier(view_name),
+                sub_sql=subsql.to_bound_near_sql(columns=kept),
+                annotation=str(
+                    drop_columns_node.to_python_src_(print_sources=False, indent=-1)
+                ),
+                ops_key=None,
+            )
         subsql.terms = {
             k: subsql.terms[k]
             for k in using
